@@ -602,6 +602,9 @@ async def _execute(loop, program, observe=None):
         skw['lease_publisher'] = lease_pub
         ckw['honor_lease'] = True
         ckw['request_queue_size'] = lease.get('queue', 0)
+    if cfg.get('client_lease_publisher'):
+        # a client that grants leases itself (it has a lease publisher), whether or not it honours the server's
+        ckw['lease_publisher'] = ManualLeasePublisher(world)
     raw_side = cfg.get('raw')
     scn.raw = None
     scn.raws = []
@@ -652,6 +655,7 @@ async def _execute(loop, program, observe=None):
                                 fragment_size_bytes=frag[1], **common, **skw)
             scn.sock['s'] = srv
             scn.servers.append(srv)
+            tap_queue(srv, 's')
             if cfg.get('idmask'):
                 srv._stream_control._maximum_stream_id = cfg['idmask']
         if connect_scripts and index < len(connect_scripts) and connect_scripts[index]:
@@ -660,6 +664,26 @@ async def _execute(loop, program, observe=None):
         if ct and index < len(ct) and ct[index]:
             c.transport['c'].close_ticks = ct[index]  # this transport's close() suspends for that many loop iterations
         return c
+
+    def tap_queue(sock, side):
+        """Record the moment the endpoint hands a frame to its send queue (that is when it decided to emit it; the 'send'
+        event is when the sender task got round to it)."""
+        for name in ('send_frame', 'send_priority_frame'):
+            orig = getattr(sock, name, None)
+            if orig is None:
+                continue
+
+            def wrapped(frame, _orig=orig, _side=side):
+                try:
+                    world.ev(_side, 'queued', ftype=type(frame).__name__, sid=getattr(frame, 'stream_id', None))
+                except Exception:
+                    pass
+                return _orig(frame)
+
+            try:
+                setattr(sock, name, wrapped)
+            except Exception:
+                pass
 
     conn.set_auto(cfg.get('regime', 'pumped') == 'pumped')
     open_connection(0)
@@ -689,6 +713,7 @@ async def _execute(loop, program, observe=None):
         else:
             client = RSocketClient(provider(), handler_factory=chf, fragment_size_bytes=frag[0], **common, **ckw)
         scn.sock['c'] = client
+        tap_queue(client, 'c')
         if cfg.get('connect_async'):
             connect_task = asyncio.ensure_future(client.connect())
             await asyncio.sleep(0)  # connect() has begun (requests are only issued after that)
@@ -858,6 +883,11 @@ async def _execute(loop, program, observe=None):
             state['faulted'] = True
             world.ev('net', 'cut', mode=op[1])
             conn.cut(op[1])
+        elif name == 'halfclose':
+            # the peer of `side` shuts down its sending direction (orderly FIN): `side` reads EOF, its own writes are not failed
+            state['faulted'] = True
+            world.ev('net', 'cut', mode='halfclose', at=op[1])
+            conn.link[{'c': 's', 's': 'c'}[op[1]]].cut('eof')
         elif name == 'close':
             state['faulted'] = True
             world.ev(op[1], 'close_call')
